@@ -1,4 +1,5 @@
-use super::swift_utils::{parse_bic, parse_swift_chars};
+use super::field_utils::{parse_name_and_address, parse_party_identifier};
+use super::swift_utils::parse_bic;
 use crate::errors::ParseError;
 use crate::traits::SwiftField;
 use serde::{Deserialize, Serialize};
@@ -56,14 +57,14 @@ impl SwiftField for Field58A {
     where
         Self: Sized,
     {
-        let lines: Vec<&str> = input.lines().collect();
+        let lines: Vec<&str> = input.split('\n').collect();
 
         let mut party_identifier = None;
         let mut bic_line_idx = 0;
 
         // Check for optional party identifier on first line
-        if !lines.is_empty() && lines[0].starts_with('/') {
-            party_identifier = Some(lines[0][1..].to_string()); // Strip the leading / (format prefix)
+        if let Some(party_id) = parse_party_identifier(lines[0])? {
+            party_identifier = Some(party_id); // stored without the leading / (format prefix)
             bic_line_idx = 1;
         }
 
@@ -108,41 +109,18 @@ impl SwiftField for Field58D {
     where
         Self: Sized,
     {
-        let mut lines = input.lines().collect::<Vec<_>>();
+        let lines = input.split('\n').collect::<Vec<_>>();
         let mut party_identifier = None;
+        let mut start_idx = 0;
 
-        // Check if first line is a party identifier
-        // Party identifier can be on its own line (starting with /)
-        // If first line is short and there are more lines, it's likely a party identifier
-        if let Some(first_line) = lines.first() {
-            // Party identifier should start with / and be short (≤35 chars to account for the /)
-            if first_line.starts_with('/') && first_line.len() <= 35 && lines.len() > 1 {
-                // Entire first line is party identifier (strip the leading / format prefix)
-                party_identifier = Some(first_line[1..].to_string());
-                lines.remove(0);
-            }
+        // Optional party identifier on the first line (stored without the leading / format prefix)
+        if let Some(party_id) = parse_party_identifier(lines[0])? {
+            party_identifier = Some(party_id);
+            start_idx = 1;
         }
 
-        // Parse name and address lines (max 4 lines, max 35 chars each)
-        let mut name_and_address = Vec::new();
-        for (i, line) in lines.iter().enumerate() {
-            if i >= 4 {
-                break;
-            }
-            if line.len() > 35 {
-                return Err(ParseError::InvalidFormat {
-                    message: format!("Field 58D line {} exceeds 35 characters", i + 1),
-                });
-            }
-            parse_swift_chars(line, &format!("Field 58D line {}", i + 1))?;
-            name_and_address.push(line.to_string());
-        }
-
-        if name_and_address.is_empty() {
-            return Err(ParseError::InvalidFormat {
-                message: "Field 58D must contain name and address information".to_string(),
-            });
-        }
+        // 1 to 4 name and address lines of 1 to 35 characters; a fifth line is an error, not dropped
+        let name_and_address = parse_name_and_address(&lines, start_idx, "Field 58D")?;
 
         Ok(Field58D {
             party_identifier,
